@@ -102,6 +102,10 @@ SENSITIVITY = {
     "r17d": ("seeded/r17d/patch.diff", "C18", ["callback-invariant"], "A: Interp2D keeps a packed copy of widely strided axes; index_point reads y from the x copy"),
     "r18a": ("seeded/r18a/patch.diff", "C17", ["result-mismatch", "entry-point-mismatch"], "A: huge-axis scenario - index hint with a closed-interval test, engaged only for axes of >= 1024 knots"),
     "r18b": ("seeded/r18b/patch.diff", "C18", ["build-invariant", "build-invoked-on-invalid-input"], "A: huge-axis builder cases - block-wise monotonicity fast path (4096) skipping the seam pairs"),
+    "r19a": ("seeded/r19a/patch.diff", "C17", ["result-mismatch", "entry-point-mismatch"], "A: Bilinear row memo whose x key is written before the y part can fail (Err in y, then the same x with a valid y)"),
+    "r19b": ("seeded/r19b/patch.diff", "C17", ["result-mismatch"], "C / B: interned axis tables in a registry whose handles publish (generation, position) in the wrong order; builds and drops move entries"),
+    "r19c": ("seeded/r19c/patch.diff", "C18", ["callback-invariant"], "A: single-point fast path for n-d queries hands the whole buffer (extra length-1 axes) to the strategy for dynamic-rank data"),
+    "r19d": ("seeded/r19d/patch.diff", "C18", ["wrong-target", "concurrent-operation-affected", "query-element-not-delivered", "callback-invariant"], "C / B: single-flight coalescing of identical point queries; a follower sleeps through the next flight and copies its row"),
     "M16": ("mutants/M16.diff", "C17", ["answers-differ-between-processes", "process-history-dependence"], "A: evaluation order picked once per process from the hasher's random seed"),
 }
 # seeded/r7d is kept but not listed: its author reads C18 as forbidding one-point axes for strategies
